@@ -24,7 +24,8 @@ type space struct {
 	name  string
 	alpha []symbol
 	last  []symbol
-	less  int // this space is enumerated up to maxN-less lines
+	minN  int // sequence lengths minN..maxN are enumerated
+	maxN  int
 }
 
 func b64of(label string, n int) string {
@@ -88,21 +89,51 @@ func withTerm(kinds []symbol, term, termName string) []symbol {
 // richSpaces: the full line alphabet under uniform terminator schemes. (The
 // kinds ending in CR give CR LF after an LF-terminated neighbour and CR CR LF
 // under the CRLF scheme, so terminators also vary within one text.)
-func richSpaces() []space {
+//
+// quick: 0..5 lines all LF; 0..4 lines all CRLF plus the 5-line level over the
+// 19-line core alphabet; 1..4 lines with the last line unterminated.
+// thorough: 0..5 lines under all four schemes, and the 6-line level over the
+// core alphabet under all four schemes (the full alphabet at 6 lines is 1.5e9
+// texts, most of the time going into the reader's 4 KiB buffer allocation).
+func richSpaces(thorough bool) []space {
 	k := lineKinds()
 	lf, crlf, none := withTerm(k, "\n", ""), withTerm(k, "\r\n", ""), withTerm(k, "", "")
+	var core []symbol
+	for _, s := range k {
+		if coreKinds[s.name] {
+			core = append(core, s)
+		}
+	}
+	clf, ccrlf, cnone := withTerm(core, "\n", ""), withTerm(core, "\r\n", ""), withTerm(core, "", "")
+	if !thorough {
+		return []space{
+			{"rich/LF", lf, lf, 0, 5},
+			{"rich/CRLF", crlf, crlf, 0, 4},
+			{"core/CRLF", ccrlf, ccrlf, 5, 5},
+			{"rich/LF,last-line-unterminated", lf, none, 1, 4},
+			{"rich/CRLF,last-line-unterminated", crlf, none, 1, 4},
+		}
+	}
 	return []space{
-		{"rich/LF", lf, lf, 0},
-		{"rich/CRLF", crlf, crlf, 0},
-		{"rich/LF,last-line-unterminated", lf, none, 1},
-		{"rich/CRLF,last-line-unterminated", crlf, none, 1},
+		{"rich/LF", lf, lf, 0, 5},
+		{"rich/CRLF", crlf, crlf, 0, 5},
+		{"rich/LF,last-line-unterminated", lf, none, 1, 5},
+		{"rich/CRLF,last-line-unterminated", crlf, none, 1, 5},
+		{"core/LF", clf, clf, 6, 6},
+		{"core/CRLF", ccrlf, ccrlf, 6, 6},
+		{"core/LF,last-line-unterminated", clf, cnone, 6, 6},
+		{"core/CRLF,last-line-unterminated", ccrlf, cnone, 6, 6},
 	}
 }
+
+var coreKinds = map[string]bool{"BEGIN": true, "END": true, "full-A": true, "short-60col": true, "short-4col": true, "short-pad2": true,
+	"64col-padded(47B)": true, "empty": true, "space": true, "68col": true, "noncanonical-bits": true, "illegal-char": true, "garbage": true,
+	"END+space": true, "short-CR-inside": true, "short+CR": true, "full-A+CR": true, "BEGIN+CR": true, "END+CR": true}
 
 // termSpace: a core line alphabet with an independently chosen terminator
 // after every line: LF, CR LF, CR CR LF, a bare CR, or nothing at all (which
 // glues the line to the next one, or leaves the last line unterminated).
-func termSpace() space {
+func termSpace(maxN int) space {
 	k := lineKinds()
 	pick := map[string]bool{"BEGIN": true, "END": true, "full-A": true, "short-4col": true, "short-pad2": true, "empty": true, "space": true, "garbage": true}
 	var core []symbol
@@ -115,8 +146,10 @@ func termSpace() space {
 	for _, t := range []struct{ term, name string }{{"\n", "|LF"}, {"\r\n", "|CRLF"}, {"\r\r\n", "|CRCRLF"}, {"\r", "|CR"}, {"", "|none"}} {
 		alpha = append(alpha, withTerm(core, t.term, t.name)...)
 	}
-	return space{"terminators", alpha, alpha, 0}
+	return space{"terminators", alpha, alpha, 0, maxN}
 }
+
+var sampleBudget = map[string]int{"encode": 7, "line_sequences": 12, "terminator_sequences": 4, "single_edits": 7, "whitespace_amounts": 6, "random_mutants": 4}
 
 type enumJob struct {
 	sp     *space
@@ -133,17 +166,15 @@ func trivialReason(class string) bool {
 	return false
 }
 
-// runEnum executes every text of every space for every length 0..maxN.
-func runEnum(r *mon.Run, c *checker, spaces []space, maxN int, table string, registerUpTo int) {
+// runEnum executes every text of every space for every length minN..maxN.
+func runEnum(r *mon.Run, c *checker, spaces []space, table string, registerUpTo int) {
 	var jobs []enumJob
 	for si := range spaces {
 		sp := &spaces[si]
 		K := len(sp.alpha)
-		for n := 0; n <= maxN-sp.less; n++ {
+		for n := sp.minN; n <= sp.maxN; n++ {
 			if n == 0 {
-				if si == 0 {
-					jobs = append(jobs, enumJob{sp, 0, nil})
-				}
+				jobs = append(jobs, enumJob{sp, 0, nil})
 				continue
 			}
 			if n == 1 {
@@ -199,8 +230,8 @@ func runEnum(r *mon.Run, c *checker, spaces []space, maxN int, table string, reg
 				if j.n <= registerUpTo {
 					r.DistinctBytes(txt)
 				}
-				if v.accepted && v.key == "" {
-					r.SampleN(table+":"+v.class, 1, map[string]any{"side": "decode", "from": origin(), "text": string(txt), "result": v.class})
+				if v.key == "" {
+					c.sample(table, sampleBudget[table], v.class, map[string]any{"from": origin(), "text": quote(txt), "result": v.class})
 				}
 			}
 			// odometer over the free digits
